@@ -3,11 +3,16 @@ from verifkit.runner import Stream
 from verifkit import gen, wiregen as W
 
 ID = "C04"
-THM_MODULES = ["Minicbor.Thm.C04", "Minicbor.Thm.C05"]
+THM_MODULES = ["Minicbor.Thm.C04", "Minicbor.Thm.C04Acc", "Minicbor.Thm.C04Typed", "Minicbor.Thm.C04Sound", "Minicbor.Thm.C05"]
 P = "Minicbor.C04."
 REQUIRED = [P + n for n in """bytes_sound str_sound str_invalid_utf8 array_sound map_sound tag_sound array_indef map_indef
 bool_sound null_sound undefined_sound simple_sound chunkLoop_bytes chunkLoop_text bytes_iter_indef str_iter_indef
-size_head_sound size_tail_sound""".split()] + \
+size_head_sound size_tail_sound
+accessor_sound accessor_rejects accessor_ok_iff accessor_mismatch_err accessor_no_value view_value consumed_after
+prefix_eoi prefix_eoi' prefix_eoi_item prefix_eoi_any
+typed_stable typed_prefix_eoi typed_prefix_eoi' typed_prefix_eoi_any
+typed_sound typed_rejects typed_ok_iff typed_mismatch_err typed_prefix_eoi_reframed
+typed_bare_tag typed_sound_partial typed_sound_statement_needs_exclusion interp_of_encode""".split()] + \
            ["Minicbor.C05.int_accessor_exact"]
 PACKAGES = ["hcore"]
 RULE = ("dec <accessor> <encW(tree) ++ suffix>: wire trees = all scalar shapes at every head width and boundary argument, containers of 0..3 "
